@@ -16,6 +16,18 @@ from .symex import (
 )
 
 
+def caller_visible(clauses):
+    """clauses a caller may assume: those that speak about parameters, result and
+    heap only - not about the callee's own trace of external calls"""
+    out = []
+    for cl in clauses:
+        text = named(cl)[1]
+        if any(w in text for w in ("ev(", "evn(", "n_calls(", "created_here(", "final_")):
+            continue
+        out.append(cl)
+    return out
+
+
 class LoopMixin:
     # ------------------------------------------------------------- helpers
     def loop_spec(self, node, frame):
@@ -477,7 +489,7 @@ class LoopMixin:
                     self.assume(self.type_fact(r, rt))
             env2 = dict(env)
             env2["result"] = tv
-            self.assume_clauses(unit.ensures, env2, old_heap=old)
+            self.assume_clauses(caller_visible(unit.ensures), env2, old_heap=old)
             self.trace.append({"name": "call:" + unit.name, "args": dict(env), "result": r,
                                "heap_before": old, "heap_after": self.heap, "line": line})
             return tv
@@ -497,7 +509,7 @@ class LoopMixin:
         etv = TV("val", mk_ref(e), hint)
         env2 = dict(env)
         env2["exc"] = etv
-        self.assume_clauses(unit.raises[k], env2, old_heap=old)
+        self.assume_clauses(caller_visible(unit.raises[k]), env2, old_heap=old)
         self.trace.append({"name": "call:" + unit.name, "args": dict(env), "exc": etv.r,
                            "heap_before": old, "heap_after": self.heap, "line": line})
         raise PyRaise(etv, known_cls=None, origin=f"call:{unit.name}")
@@ -533,8 +545,85 @@ class LoopMixin:
             return self.new_dict([(x, tv_none()) for x in out], kind="set")
         return self.new_dict(out)
 
+    def _pure_on(self, frame, target, value_tv, exprs):
+        """evaluate pure expressions with `target` bound to value_tv (spec mode);
+        returns ([TV], side facts)"""
+        fr = Frame(parent=frame, func=frame.func)
+        self.in_spec += 1
+        saved = self.spec_side
+        self.spec_side = []
+        try:
+            self.assign(target, value_tv, fr)
+            out = [self.eval(e, fr) for e in exprs]
+            side = list(self.spec_side)
+        finally:
+            self.spec_side = saved
+            self.in_spec -= 1
+        return out, side
+
     def symbolic_comprehension(self, n, frame, kind, it):
-        raise Unsupported(f"comprehension over symbolic iterable (line {n.lineno})")
+        """comprehensions over a symbolic list / dict whose element and filter
+        expressions are pure; the result is a fresh container defined by
+        quantified facts (assumption A-COMP-PURE: no side effects, no exceptions)"""
+        g = n.generators[0]
+        line = getattr(n, "lineno", 0)
+        is_items = it.k == "py" and isinstance(it.r, tuple) and it.r[:2] == ("dictview", "items")
+        if kind == "dict" and is_items:
+            # {k: f(k, v) for k, v in D.items() if c(k, v)} with the key kept
+            if not (isinstance(g.target, ast.Tuple) and isinstance(n.key, ast.Name)
+                    and isinstance(g.target.elts[0], ast.Name) and g.target.elts[0].id == n.key.id):
+                raise Unsupported(f"dict comprehension that renames keys (line {line})")
+            D = self.as_addr(it.r[2])
+            kq = fresh("ck", Val)
+            vq = z3.Select(z3.Select(self.heap.cur["dval"], D), kq)
+            pair = py([TV("val", kq), TV("val", vq, self.elem_hint(it.r[2]))], "ctuple")
+            (outs, side) = self._pure_on(frame, g.target, pair, [n.value] + list(g.ifs))
+            val = self.to_val(outs[0])
+            cond = z3.And(*[self.truthy(c) for c in outs[1:]]) if len(outs) > 1 else z3.BoolVal(True)
+            R = self.alloc("dict")
+            hasrow = fresh("ch_row", z3.ArraySort(Val, core.BoolS))
+            valrow = fresh("cv_row", z3.ArraySort(Val, Val))
+            h = self.heap.with_array("dhas", z3.Store(self.heap.cur["dhas"], R, hasrow), bump=False)
+            h = h.with_array("dval", z3.Store(h.cur["dval"], R, valrow), bump=False)
+            h = h.store("dklen", (R,), fresh("clen", core.IntS), bump=False)
+            self.heap = h
+            srchas = z3.Select(z3.Select(self.heap.cur["dhas"], D), kq)
+            self.assume(z3.ForAll([kq], z3.And(
+                *side,
+                z3.Select(hasrow, kq) == z3.And(srchas, cond),
+                z3.Implies(z3.Select(hasrow, kq), z3.Select(valrow, kq) == val))))
+            return TV("val", mk_ref(R), "dict")
+        if it.k == "val" and it.hint == "list" and kind in ("list", "set", "gen") and not g.ifs:
+            L = self.as_addr(it)
+            ln = self.hread("llen", (L,))
+            srcrow = self.row_const(L)
+            q = fresh("cq", core.IntS)
+            x = TV("val", z3.Select(srcrow, q), self.elem_hint(it))
+            (outs, side) = self._pure_on(frame, g.target, x, [n.elt])
+            val = self.to_val(outs[0])
+            if kind == "list":
+                R = self.alloc("list")
+                row = fresh("comp_row", z3.ArraySort(core.IntS, Val))
+                self.heap = self.heap.store("llen", (R,), ln, bump=False)
+                self.heap = self.heap.with_array("lelem", z3.Store(self.heap.cur["lelem"], R, row), bump=False)
+                self.assume(z3.ForAll([q], z3.Implies(z3.And(0 <= q, q < ln),
+                            z3.And(*side, z3.Select(row, q) == val)), patterns=[z3.Select(row, q)]))
+                return TV("val", mk_ref(R), "list")
+            # set / generator consumed as a set: membership <=> some element maps to it
+            S = self.alloc("set")
+            hasrow = fresh("cs_row", z3.ArraySort(Val, core.BoolS))
+            h = self.heap.with_array("dhas", z3.Store(self.heap.cur["dhas"], S, hasrow), bump=False)
+            h = h.store("dklen", (S,), fresh("clen", core.IntS), bump=False)
+            self.heap = h
+            wit = z3.Function(core.fresh_name("comp_idx"), Val, core.IntS)
+            vq = fresh("cv", Val)
+            self.assume(z3.ForAll([q], z3.Implies(z3.And(0 <= q, q < ln),
+                        z3.And(*side, z3.Select(hasrow, val))), patterns=[z3.Select(srcrow, q)]))
+            valw = z3.substitute(val, (q, wit(vq)))
+            self.assume(z3.ForAll([vq], z3.Implies(z3.Select(hasrow, vq),
+                        z3.And(0 <= wit(vq), wit(vq) < ln, valw == vq)), patterns=[z3.Select(hasrow, vq)]))
+            return TV("val", mk_ref(S), "set")
+        raise Unsupported(f"comprehension over symbolic iterable (line {line})")
 
     def bi_any(self, args, kw, n, frame):
         items = self.iter_items(args[0])
